@@ -13,12 +13,15 @@ def taint_all(ctx):
     return ctx.memo("taint_all", compute)
 
 
-def make_taint_rule(origins, kinds, label):
-    """origins: subset of {client, wire, file}; kinds: which sink kinds to report"""
+def make_taint_rule(origins, kinds, label, scope_prefix=None):
+    """origins: subset of {client, wire, file}; kinds: which sink kinds to report;
+    scope_prefix: report only sinks in functions with this path prefix"""
     def rule(ctx, R):
         T, scope = taint_all(ctx)
         nf = 0; ns = 0; ng = 0
         for fn in sorted(scope):
+            if scope_prefix and not fn.startswith(scope_prefix):
+                continue
             if not T.tainted.get(fn):
                 R.trivial(); continue
             b = ctx.prog.bodies[fn]
@@ -279,3 +282,44 @@ def same_receiver(b, o1, o2):
     if c1 and c2:
         return bool(c1 & c2)
     return bool((r1 & r2) - {1})
+
+
+# ---------------------------------------------------------------------------------------------
+# R-RUN-FATAL: an Err that reaches Server::run's return ends the process (main prints it and
+# exits).  Only the listening socket may be the origin of such an error; an error that depends
+# on client data (storage, handlers, per-connection I/O, parsing) must be handled below run.
+FATAL_OK = re.compile(r"^std::net::TcpListener::|^std::net::tcp::TcpListener::")
+
+
+def rule_run_fatal(ctx, R):
+    import errflow
+    fn = SERVER + "run"
+    b = ctx.prog.need(fn)
+    E = errflow.ErrFlow(ctx)
+    tries = [i for i, t in b.calls() if re.search(r"std::ops::Try>::branch$", t["f"] or "")]
+    R.floor("try_sites_in_run", min(len(tries), 1))
+    org = E.origins(fn)
+    groups = {}
+    for o in org:
+        if o[0] == "extern":
+            if FATAL_OK.search(o[1]):
+                R.inst(fn, "fatal-origin:listener", {"origin": o[1], "via": o[2]})
+                continue
+            groups.setdefault("extern:" + o[1].split("::<")[0], []).append(o)
+        elif o[0] == "ctor":
+            groups.setdefault("error-from:" + runner_stable(o[1]), []).append(o)
+        else:
+            groups.setdefault("param:" + runner_stable(o[1]), []).append(o)
+    R.inst(fn, "error-origins-of-run", {"try_sites": len(tries), "origins": len(org), "functions_followed": len(E.memo), "unaccepted": len(groups)})
+    for k, os_ in sorted(groups.items()):
+        o = os_[0]
+        where = o[1] if o[0] != "extern" else (o[2] or o[1])
+        wb = ctx.prog.bodies.get(where)
+        loc = "%s:%s" % (wb.file, o[-1]) if wb is not None and o[-1] else b.loc()
+        R.finding(fn, "fatal:" + k,
+                  "an error raised in %s can propagate through `?` up to Server::run, whose Err ends the process: a condition a client can provoke (wrong type, full memory, a dropped socket) must not stop the server" % (o[1]), loc)
+
+
+def runner_stable(fn):
+    import runner
+    return runner.stable_fn(fn) if hasattr(runner, "stable_fn") else fn
